@@ -579,8 +579,8 @@ example :
 
 open Nx.L1 Nx.Prudp in
 /-- **"For each direction … every interleaving of sends in both directions."** Two endpoints A and B, each both sender and
-    receiver on substream `sub`. A history is any sequence of: an application `send` at either end, a keep-alive of either
-    end, the delivery (through `handle`: gates, acknowledgement, window, release loop) of ANY packet either end has ever
+    receiver on substream `sub`. A history is any sequence of: an application `send` at either end — as one step, or fragment
+    by fragment (`beginA`, `fragA`, …) with anything either end or the network does in between —, a keep-alive of either end, the delivery (through `handle`: gates, acknowledgement, window, release loop) of ANY packet either end has ever
     emitted to the other end — any order, any number of times, never = loss —, any acknowledgement arriving at either
     end, a retransmission timer of either end firing. In every state such a history reaches, what B's application can read
     is a prefix of what A's application sent AND what A's application can read is a prefix of what B's sent. The step
@@ -594,17 +594,18 @@ theorem C01_duplex_safety (env : Env) (hl : EnvLaws env) (sub : Nat) (ciA ciB : 
   duplex_safe (duplex_run env hl sub ciA ciB sizeA sizeB hA hB startA startB ops d chAB chBA h0 hok)
 
 open Nx.L1 Nx.Prudp in
-/-- … and once everything either end emitted has been released at the other end (both still connected), each application has
+/-- … and once everything either end emitted has been released at the other end (both still connected), and no `send` is between its fragments, each application has
     exactly what the other one sent -/
 theorem C01_duplex_complete (env : Env) (hl : EnvLaws env) (sub : Nat) (ciA ciB : Cipher) (sizeA sizeB : Nat) (hA : 1 ≤ sizeA) (hB : 1 ≤ sizeB)
     (startA startB : Nat) (ops : List DOp) (d : Duplex) (chAB chBA : Chan)
     (h0 : DGood env sub ciA ciB sizeA sizeB startA startB d chAB chBA) (hok : Duplex.runOk env sub d ops = true)
     (hallA : (Duplex.run env sub d ops).ab.nrel = (Duplex.run env sub d ops).ab.net.length)
     (hallB : (Duplex.run env sub d ops).ba.nrel = (Duplex.run env sub d ops).ba.net.length)
+    (hidleA : (Duplex.run env sub d ops).ab.pend = []) (hidleB : (Duplex.run env sub d ops).ba.pend = [])
     (hopenA : (Duplex.run env sub d ops).ab.a.state = STATE_CONNECTED) (hopenB : (Duplex.run env sub d ops).ba.a.state = STATE_CONNECTED) :
     ((Duplex.run env sub d ops).ab.b.queues[sub]?.getD []) = (Duplex.run env sub d ops).ab.accepted ∧
     ((Duplex.run env sub d ops).ab.a.queues[sub]?.getD []) = (Duplex.run env sub d ops).ba.accepted :=
-  duplex_complete (duplex_run env hl sub ciA ciB sizeA sizeB hA hB startA startB ops d chAB chBA h0 hok) hallA hallB hopenA hopenB
+  duplex_complete (duplex_run env hl sub ciA ciB sizeA sizeB hA hB startA startB ops d chAB chBA h0 hok) hallA hallB hidleA hidleB hopenA hopenB
 
 open Nx.L1 Nx.Prudp in
 /-- **Liveness in both directions.** From the initial channels: if both ends are still open and connected and every packet
@@ -617,13 +618,14 @@ theorem C01_duplex_liveness (env : Env) (hl : EnvLaws env) (sub : Nat) (ciA ciB 
     (hok : Duplex.runOk env sub d ops = true)
     (hopenB : (Duplex.run env sub d ops).ab.b.eof = false) (hopenA : (Duplex.run env sub d ops).ba.b.eof = false)
     (hconA : (Duplex.run env sub d ops).ab.a.state = STATE_CONNECTED) (hconB : (Duplex.run env sub d ops).ba.a.state = STATE_CONNECTED)
+    (hidleA : (Duplex.run env sub d ops).ab.pend = []) (hidleB : (Duplex.run env sub d ops).ba.pend = [])
     (hallA : ∀ j, j < (Duplex.run env sub d ops).ab.net.length →
       j ∈ arrived (wrap env ciA) sizeA (Chan.init startA) (Duplex.absAB env sub d ops))
     (hallB : ∀ j, j < (Duplex.run env sub d ops).ba.net.length →
       j ∈ arrived (wrap env ciB) sizeB (Chan.init startB) (Duplex.absBA env sub d ops)) :
     ((Duplex.run env sub d ops).ab.b.queues[sub]?.getD []) = (Duplex.run env sub d ops).ab.accepted ∧
     ((Duplex.run env sub d ops).ab.a.queues[sub]?.getD []) = (Duplex.run env sub d ops).ba.accepted :=
-  duplex_liveness env hl sub ciA ciB sizeA sizeB hA hB startA startB hsA hsB ops d h0 hok hopenB hopenA hconA hconB hallA hallB
+  duplex_liveness env hl sub ciA ciB sizeA sizeB hA hB startA startB hsA hsB ops d h0 hok hopenB hopenA hconA hconB hidleA hidleB hallA hallB
 
 open Nx.L1 Nx.Prudp in
 /-- the duplex hypotheses hold for two endpoints that are `Established` in both directions (what a handshake leaves) -/
@@ -638,7 +640,8 @@ theorem delivery_hypothesis_is_the_window {env : Env} {sub : Nat} {ci : Cipher} 
     (h : Good env sub ci size start d.ab ch) : d.opOk env sub (.toB now j) = d.ab.opOk env sub (.deliverH now j) :=
   toB_ok now j h
 
-/-! non-vacuity: two established endpoints; A sends a two-fragment message, B two messages; the packets of both directions
+/-! non-vacuity: two established endpoints; A sends a two-fragment message fragment by fragment (B's send and a second send
+    of A, which finds the lock taken, fall between the fragments), B two messages; the packets of both directions
     are delivered out of order, one twice; a keep-alive of A, an acknowledgement arriving at A; the run meets `Duplex.runOk`,
     both endpoints are `Established` towards each other at the start, and at the end each application has exactly what the
     other one sent -/
@@ -648,8 +651,8 @@ example :
     let a := { Conn.new env (some 1) 1 2 3 ("10.0.0.2", 1) 15 10 ("10.0.0.1", 2) 1 10 with state := STATE_CONNECTED, remoteSessionId := some 6 }
     let b := { Conn.new env (some 1) 4 5 6 ("10.0.0.1", 2) 1 10 ("10.0.0.2", 1) 15 10 with state := STATE_CONNECTED, remoteSessionId := some 3 }
     let ack : Packet := { type := TYPE_DATA, flags := FLAG_ACK, packetId := 1, sessionId := 6, signature := some [1] }
-    let ops := [DOp.sendA 0 [1, 2, 3], .sendB 0 [7, 7], .toB 1 1, .toA 1 0, .toB 2 0, .toB 3 1, .pingA 4, .toB 4 2, .sendB 5 [8],
-                .toA 6 1, .ackToA 6 ack, .toA 7 0]
+    let ops := [DOp.beginA 0 [1, 2, 3], .fragA 0, .sendB 0 [7, 7], .sendA 0 [5], .fragA 1, .toB 1 1, .toA 1 0, .toB 2 0, .toB 3 1, .pingA 4, .toB 4 2,
+                .beginB 5 [8], .fragB 5, .toA 6 1, .ackToA 6 ack, .toA 7 0]
     let d0 : Duplex := { ab := Sys.fresh a b, ba := Sys.fresh b a }
     (establishedB 0 1 a b && establishedB 0 1 b a) = true ∧
     Duplex.runOk env 0 d0 ops = true ∧
